@@ -63,6 +63,17 @@ def call(sig: str, fn: Callable, *args, allowed: tuple = (), **kwargs):
         raise Violation(f"{sig}:raises:{type(e).__name__}", _short(e)) from e
 
 
+DOCUMENTED_GENERATION_ERRORS = ("no valid start or end positions", "larger sample than population", "Cannot take a larger sample", "high <= 0")
+
+
+def discard_if_unsatisfiable(e: BaseException, sig: str):
+    """generation may legitimately refuse a configuration whose endpoint options cannot be met (documented ValueError messages):
+    those cases are discarded and counted. Any other ValueError from a legitimate request is a violation, not a discard."""
+    if isinstance(e, ValueError) and any(s in str(e) for s in DOCUMENTED_GENERATION_ERRORS):
+        raise Discard() from e
+    raise Violation(f"{sig}:raises:{type(e).__name__}", _short(e)) from e
+
+
 def scribble(x) -> None:
     """overwrite a result the library handed out (a caller may do what it likes with it): later answers must not depend on it"""
     import numpy as np
